@@ -31,9 +31,9 @@ import (
 type rect [4]float64
 
 type pg struct {
-	Marker                  string
-	Rot                     int
-	Media                   rect
+	Marker                 string
+	Rot                    int
+	Media                  rect
 	Crop, Trim, Bleed, Art *rect
 }
 
@@ -82,7 +82,7 @@ func (m *c32Model) String() string {
 }
 
 type c32Args struct {
-	Sel    []string `json:"sel,omitempty"`  // page selection as given to the API
+	Sel    []string `json:"sel,omitempty"`   // page selection as given to the API
 	Pages  []int    `json:"pages,omitempty"` // the same, expanded (what the selection means)
 	Deg    int      `json:"deg,omitempty"`
 	Before bool     `json:"before,omitempty"`
@@ -95,13 +95,13 @@ type c32Args struct {
 // the media box where there is none, for trim/bleed/art), in the forms pdfcpu documents
 // (model.ParseBox): dimensions anchored within the parent with an optional offset, or margins.
 type boxSpec struct {
-	Kind   string     `json:"kind"`             // dim | dimpct | margin1 | margin4 | marginpct
+	Kind   string     `json:"kind"`        // dim | dimpct | margin1 | margin4 | marginpct
 	W      float64    `json:"w,omitempty"` // dim: points; dimpct: percent of the parent's width/height
 	H      float64    `json:"h,omitempty"`
 	Anchor string     `json:"anchor,omitempty"` // tl tc tr l c r bl bc br ("" = c, the documented default)
 	DX     int        `json:"dx,omitempty"`
 	DY     int        `json:"dy,omitempty"`
-	M      [4]float64 `json:"m,omitempty"`      // margins top right bottom left (margin1/marginpct: M[0] only)
+	M      [4]float64 `json:"m,omitempty"` // margins top right bottom left (margin1/marginpct: M[0] only)
 }
 
 // Text is the definition string handed to api.Box.
@@ -365,7 +365,7 @@ func (c32Store) Materialise(doc, path string) error {
 	}
 	return os.WriteFile(path, b, 0644)
 }
-func (c32Store) SetupAux(string) error          { return nil }
+func (c32Store) SetupAux(string) error { return nil }
 
 // Equivalent: the same text up to 0.011 in every number (box coordinates are computed in floating
 // point on both sides and printed with two decimals; x.xx5 may round either way).
@@ -704,6 +704,6 @@ func (c32Store) Exec(s Step, path, aux string) error {
 
 func init() {
 	core.Register(histProp{id: "C32", store: c32Store{}, maxLen: 8, quickN: 30, thoroughN: 1500,
-		rule: "seeded histories of 1-8 page operations (rotate by +-90/180/270, remove, trim, collect with repetitions, insert blank pages before/after, add/remove crop/trim/bleed/art boxes and crop, with the box given as an absolute rectangle or relative to its parent box: dimensions in points or percent anchored at one of nine positions with an optional offset, one or four absolute margins, a percentage margin) with explicit page numbers, simple ranges and ranges with excluded pages (a-b,!x) as selections, on documents written by an independent generator (2-30 pages, unique marker text per page, /Rotate and /MediaBox partly inherited from intermediate page-tree nodes, mixed rotations and sizes, media boxes that do not start at the origin) and on corpus files. After every step page count, per-page content identity, effective rotation and the boxes are compared with a page-list model; unselected pages must be identical to the previous step. Faults/crash snapshots per step as for C35. Distinct by (document, step sequence); non-trivial when a step succeeded.",
+		rule:        "seeded histories of 1-8 page operations (rotate by +-90/180/270, remove, trim, collect with repetitions, insert blank pages before/after, add/remove crop/trim/bleed/art boxes and crop, with the box given as an absolute rectangle or relative to its parent box: dimensions in points or percent anchored at one of nine positions with an optional offset, one or four absolute margins, a percentage margin) with explicit page numbers, simple ranges and ranges with excluded pages (a-b,!x) as selections, on documents written by an independent generator (2-30 pages, unique marker text per page, /Rotate and /MediaBox partly inherited from intermediate page-tree nodes, mixed rotations and sizes, media boxes that do not start at the origin) and on corpus files. After every step page count, per-page content identity, effective rotation and the boxes are compared with a page-list model; unselected pages must be identical to the previous step. Faults/crash snapshots per step as for C35. Distinct by (document, step sequence); non-trivial when a step succeeded.",
 		assumptions: []string{"page content identity is the hash of the decoded content stream as pdfcpu extracts it", "selection syntax beyond explicit numbers, a-b ranges and !x exclusions is C31's subject and not used"}})
 }
